@@ -1,16 +1,16 @@
-use std::io::{self, BufRead};
+use std::io;
+
+use bytelines::ByteLinesReader;
 
 #[cfg(not(tarpaulin_include))]
 pub fn parse_ansi() -> std::io::Result<()> {
     use crate::ansi;
 
-    for line in io::stdin().lock().lines() {
+    let mut lines = io::stdin().lock().byte_lines();
+    while let Some(line) = lines.next() {
         println!(
             "{}",
-            ansi::explain_ansi(
-                &line.unwrap_or_else(|line| panic!("Invalid utf-8: {:?}", line)),
-                true
-            )
+            ansi::explain_ansi(&String::from_utf8_lossy(line?), true)
         );
     }
     Ok(())
